@@ -2,7 +2,6 @@ package main
 
 import (
 	"fmt"
-	"os"
 	"strings"
 
 	flags "github.com/jessevdk/go-flags"
@@ -339,13 +338,8 @@ func c04Run(c *Ctx) {
 // c04SingleFault: the injected cause determines the documented error type.
 func c04SingleFault(c *Ctx) {
 	r := c.R
-	fault := c09Faults[1+(c.K/4)%11] // unknown-option .. bad-choice
-	envFault := ""
-	if (c.K/4)%13 >= 11 && c.W.Tier != "race" {
-		// a bad value that arrives through an environment variable is rejected with the same documented types
-		envFault = []string{"bad-env-value", "bad-env-choice"}[(c.K/4)%13-11]
-		fault = map[string]string{"bad-env-value": "bad-value", "bad-env-choice": "bad-choice"}[envFault]
-	}
+	// unknown-option .. bad-choice, then a failing callback and bad values arriving through the environment
+	fault := append(append([]string{}, c09Faults[1:12]...), "callback-error", "bad-env-value", "bad-env-choice")[(c.K/4)%14]
 	opts := []flags.Options{flags.HelpFlag, flags.HelpFlag | flags.PassDoubleDash, flags.Default, flags.HelpFlag | flags.PrintErrors, flags.PassDoubleDash, 0}[(c.K/44)%6]
 	if c.W.Tier == "race" {
 		opts &^= flags.PrintErrors
@@ -380,39 +374,9 @@ func c04SingleFault(c *Ctx) {
 		c.Unspec("base vector leaves positional constraints unmet")
 		return
 	}
-	var items []*Item
-	var wantType flags.ErrorType
-	var pos, pi int
-	if envFault != "" {
-		var cands []*Opt
-		for _, o := range d.Opts {
-			if o.T.IsFunc() || o.T.IsFlag() || sc.Exp.Seen[o] > 0 || o.T.W == WMap {
-				continue
-			}
-			if envFault == "bad-env-choice" && len(o.Choices) > 0 {
-				cands = append(cands, o)
-			}
-			if envFault == "bad-env-value" && len(o.Choices) == 0 && (isIntKind(o.T.K) || o.T.K == KFloat64 || o.T.K == KDuration) {
-				cands = append(cands, o)
-			}
-		}
-		if len(cands) == 0 {
-			c.Unspec("no option for fault " + envFault)
-			return
-		}
-		o := cands[r.Intn(len(cands))]
-		o.Env = fmt.Sprintf("VH_C04_%d", c.K)
-		os.Setenv(o.Env, map[string]string{"bad-env-value": "!!bad", "bad-env-choice": "not-a-choice"}[envFault])
-		defer os.Unsetenv(o.Env)
-		items = sc.Items
-		wantType = map[string]flags.ErrorType{"bad-env-value": flags.ErrMarshal, "bad-env-choice": flags.ErrInvalidChoice}[envFault]
-		fault = envFault
-	} else {
-		var ok bool
-		items, wantType, pos, pi, _, ok = injectFault(c, r, d, sc, fault)
-		if !ok {
-			return
-		}
+	items, wantType, pos, pi, _, ok := injectFault(c, r, d, sc, fault)
+	if !ok {
+		return
 	}
 	args := RenderItems(d, items)
 	b := d.Build()
